@@ -47,8 +47,8 @@ Definition import_mis_g (cs : list import_case) : list N :=
 (** exit entry points: was fixStdlib applied, entry point, outcome observed in a child process, contract *)
 Definition exit_case := (N * bool * entry * outcome * outcome)%type.
 Definition exit_mis_y (cs : list exit_case) : list N :=
-  flat_map (fun '(id, fx, e, impl, _) =>
-    if outcome_eqb (y_exit (if fx then live else no_fix live) e) impl then [] else [id]) cs.
+  flat_map (fun c : exit_case => let '(id, fx, e, impl, _) := c in
+    if outcome_eqb (y_exit (if (fx : bool) then live else no_fix live) e) impl then [] else [id]) cs.
 Definition exit_mis_g (cs : list exit_case) : list N :=
   flat_map (fun '(id, _, e, _, ref) => if outcome_eqb (g_exit e) ref then [] else [id]) cs.
 
